@@ -169,7 +169,8 @@ def scen_pol_equiv(env, cfg):
     L = env.real('L', 0.1, 100)
     phi = env.real('phi_max', 0.01, 10)
     al = env.real('alpha', 0, 0.5) if cfg.get('lossy') else 0
-    b2 = env.real('beta_2', 1, 25) if mode == 'stepsize' else 0
+    b2 = env.real('beta_2', 1, 25) if (mode == 'stepsize' and not cfg.get('beta3_only')) else 0
+    b3 = env.real('beta_3', 0.05, 0.2) if cfg.get('beta3_only') else 0
     if not env.symbolic:
         env.assume(phi * 3 >= g * sum(env.abs2(v) for v in xs) * L)  # concrete runs: a handful of steps
     mk = env.mark()
@@ -184,7 +185,7 @@ def scen_pol_equiv(env, cfg):
             ctx().fft_calls = 1
             k0 = len(env.events('div'))
             try:
-                D_.FIBER(sig, L, alpha=al, beta_2=b2, gamma=g, phi_max=phi)
+                D_.FIBER(sig, L, alpha=al, beta_2=b2, beta_3=b3, gamma=g, phi_max=phi)
             except PathAbort:
                 pass
             except (env.NonFinite, ZeroDivisionError):
@@ -195,6 +196,8 @@ def scen_pol_equiv(env, cfg):
                           None if bad else [], since=mk)
         if bad:
             return
+        env.check('with dispersion (beta2 or beta3) and nonlinearity both present the step size is taken from phi_max/(gamma*peak power)',
+                  len(dens[0]) >= 1 and len(dens[1]) >= 1)
         env.check('the one-polarisation run uses the same step sizes as the two-polarisation run',
                   len(dens[0]) == len(dens[1]) >= 1 and env.And([env.eq(R(u), R(v), scale=10) for u, v in zip(*dens)]))
         return
@@ -202,8 +205,8 @@ def scen_pol_equiv(env, cfg):
         from vf.core import ctx
         ctx().limits['max_fft_calls'] = 4
     try:
-        a = D_.FIBER(one, L, alpha=al, beta_2=b2, gamma=g, phi_max=phi)
-        b = D_.FIBER(two, L, alpha=al, beta_2=b2, gamma=g, phi_max=phi)
+        a = D_.FIBER(one, L, alpha=al, beta_2=b2, beta_3=b3, gamma=g, phi_max=phi)
+        b = D_.FIBER(two, L, alpha=al, beta_2=b2, beta_3=b3, gamma=g, phi_max=phi)
         outs = [a.signal, b.signal]
     except (env.NonFinite, ZeroDivisionError):
         outs = None
@@ -211,6 +214,14 @@ def scen_pol_equiv(env, cfg):
                       until_event='fft')
     if outs is None:
         return
+    if mode == 'stepsize':
+        # concrete runs: the output must depend on phi_max when the nonlinear phase per length is large (a single full-length step would not)
+        import math
+        nl = float(g) * float(sum(env.abs2(v) for v in xs)) * float(L)
+        c1 = D_.FIBER(one, L, alpha=al, beta_2=b2, beta_3=b3, gamma=g, phi_max=phi * 3)
+        diff = max(abs(complex(env.re(u), env.im(u)) - complex(env.re(v), env.im(v))) for u, v in zip(env.items(a.signal), env.items(c1.signal)))
+        env.check('with dispersion (beta2 or beta3) and nonlinearity both present the step size is taken from phi_max/(gamma*peak power)',
+                  nl < 0.5 or float(phi) * 3 >= nl or diff > 1e-9)
     env.check('the one-polarisation run uses the same step sizes as the two-polarisation run',
               env.eqs(a.signal, env.rows(b.signal)[0], scale=10))
     env.check('FIBER(1-pol x).signal == FIBER([x, 0]).signal[0]', env.eqs(a.signal, env.rows(b.signal)[0], scale=10))
@@ -276,6 +287,8 @@ def configs(tier):
             out.append((f'spm-n2-pol{pol}-{"lossy" if lossy else "lossless"}', scen_spm, dict(n=2, pol=pol, lossy=lossy), {}))
     for n in ((2,) if q else (2, 3)):
         out.append((f'pol-equivalence-stepsize-n{n}', scen_pol_equiv, dict(n=n, mode='stepsize'), {'validate': 2, 'limits': {'feas_timeout_ms': 1000},
+                    'expect_reach': ['the one-polarisation run uses the same step sizes as the two-polarisation run']}))
+        out.append((f'pol-equivalence-stepsize-beta3-n{n}', scen_pol_equiv, dict(n=n, mode='stepsize', beta3_only=True), {'validate': 2, 'limits': {'feas_timeout_ms': 1000},
                     'expect_reach': ['the one-polarisation run uses the same step sizes as the two-polarisation run']}))
         out.append((f'pol-equivalence-spm-n{n}', scen_pol_equiv, dict(n=n, mode='spm'), {'validate': 2, 'limits': {'feas_timeout_ms': 1000},
                     'expect_reach': ['FIBER(1-pol x).signal == FIBER([x, 0]).signal[0]']}))
